@@ -152,4 +152,91 @@ theorem fixedSizeInteger_none_of_upper (a : Char) (r : Chars) (ha : isUpper a = 
     · simp only [litHere_none_of_head "int" 'i' _ rfl a r hi] at heq
       cases heq
 
+/-! ### more negative and end-of-line facts -/
+
+theorem userTypeName_none_of_head (c : Char) (cs : Chars) (hws : isWs c = false) (hu : isUpper c = false) :
+    userTypeName (c :: cs) = none := by
+  unfold userTypeName
+  rw [skipWs_cons_of_not_ws c cs hws]
+  cases cs with
+  | nil => rfl
+  | cons b rest => simp [hu]
+
+theorem fixedSizeInteger_none_of_head (c : Char) (r : Chars) (hws : isWs c = false) (hu : c ≠ 'u') (hi : ('i' == c) = false) :
+    fixedSizeInteger (c :: r) = none := by
+  unfold fixedSizeInteger
+  rw [skipWs_cons_of_not_ws c r hws]
+  simp only []
+  split
+  · rfl
+  · rename_i t2 heq
+    exfalso
+    split at heq
+    · rename_i h2; simp only [List.cons.injEq] at h2; exact hu h2.1
+    · simp only [litHere_none_of_head "int" 'i' _ rfl c r hi] at heq
+      cases heq
+
+theorem atEol_cons (c : Char) (cs : Chars) (hws : isWs c = false) : atEol (c :: cs) = false := by
+  simp [atEol, skipWs_cons_of_not_ws c cs hws]
+
+theorem atEol_skip_blank (cs : Chars) : atEol (' ' :: cs) = atEol cs := by simp only [atEol, skipWs_blank]
+
+theorem head_toDigits (n : Nat) : ∃ c cs, Nat.toDigits 10 n = c :: cs ∧ isDigit c = true := by
+  cases hd : Nat.toDigits 10 n with
+  | nil => exact absurd hd Nat.toDigits_ne_nil
+  | cons c cs =>
+    have := all_isDigit_toDigits n
+    rw [hd] at this
+    simp only [List.all_cons, Bool.and_eq_true] at this
+    exact ⟨c, cs, rfl, this.1⟩
+
+theorem not_upper_of_digit {c : Char} (h : isDigit c = true) : isUpper c = false := by
+  simp only [isDigit, isUpper, Bool.and_eq_true, decide_eq_true_eq, Bool.and_eq_false_iff, decide_eq_false_iff_not,
+    Char.le_def, UInt32.le_iff_toNat_le] at *
+  have e1 : ('9' : Char).val.toNat = 57 := by decide
+  have e2 : ('A' : Char).val.toNat = 65 := by decide
+  omega
+
+theorem not_lower_of_digit {c : Char} (h : isDigit c = true) : isLower c = false := by
+  simp only [isDigit, isLower, Bool.and_eq_true, decide_eq_true_eq, Bool.and_eq_false_iff, decide_eq_false_iff_not,
+    Char.le_def, UInt32.le_iff_toNat_le] at *
+  have e1 : ('9' : Char).val.toNat = 57 := by decide
+  have e2 : ('a' : Char).val.toNat = 97 := by decide
+  omega
+
+/-- a decimal numeral is neither a constant name nor a property name -/
+theorem constName_toString_none (n : Nat) (r : Chars) : constName ((toString n).toList ++ r) = none := by
+  rw [toString_toList]
+  obtain ⟨c, cs, hd, hc⟩ := head_toDigits n
+  rw [hd]
+  exact constName_none_of_head c _ (not_ws_of_digit hc) (not_upper_of_digit hc)
+
+theorem propertyName_toString_none (n : Nat) (r : Chars) : propertyName ((toString n).toList ++ r) = none := by
+  rw [toString_toList]
+  obtain ⟨c, cs, hd, hc⟩ := head_toDigits n
+  rw [hd]
+  exact propertyName_none_of_head c _ (not_ws_of_digit hc) (not_lower_of_digit hc)
+
+/-- `__FILL__` is not a number -/
+theorem number_underscore_none (r : Chars) : number ('_' :: r) = none := by
+  simp [number, hexNumber, decNumber, skipWs, isWs, isDigit]
+
+theorem propertyName_inline_blank (r : Chars) :
+    propertyName ('i' :: 'n' :: 'l' :: 'i' :: 'n' :: 'e' :: ' ' :: r) = some ("inline", ' ' :: r) := by
+  simp [propertyName, skipWs, isWs, isLower, isDigit, List.takeWhile, List.dropWhile]
+
+/-! ### condition operators (`not equals`, `equals`, `not in`, `in` are tried in this order) -/
+
+theorem condOp_equals (r : Chars) :
+    conditionalOperation ('e' :: 'q' :: 'u' :: 'a' :: 'l' :: 's' :: r) = some ("equals", r) := by
+  simp [conditionalOperation, skipWs, isWs, litHere, List.isPrefixOf]
+theorem condOp_not_equals (r : Chars) :
+    conditionalOperation ('n' :: 'o' :: 't' :: ' ' :: 'e' :: 'q' :: 'u' :: 'a' :: 'l' :: 's' :: r) = some ("not equals", r) := by
+  simp [conditionalOperation, skipWs, isWs, litHere, List.isPrefixOf]
+theorem condOp_in (r : Chars) : conditionalOperation ('i' :: 'n' :: r) = some ("in", r) := by
+  simp [conditionalOperation, skipWs, isWs, litHere, List.isPrefixOf]
+theorem condOp_not_in (r : Chars) :
+    conditionalOperation ('n' :: 'o' :: 't' :: ' ' :: 'i' :: 'n' :: r) = some ("not in", r) := by
+  simp [conditionalOperation, skipWs, isWs, litHere, List.isPrefixOf]
+
 end SymbolVerif.Cats.Lexer
